@@ -238,12 +238,15 @@ def op_at_crash(trace_lines):
 HANG_CONFIRM_S = int(os.environ.get("VERIF_HANG_CONFIRM_S", "900"))
 SLOW_RUNS = [0]
 
-def crash_property(opdesc, plan_profile):
-    """which property owns a crash (DESIGN 5: C07 for invalid-argument ops, C11 for reads of damaged files, C17 otherwise)"""
+def crash_property(opdesc, plan_profile, plan_text=""):
+    """which property owns a crash (DESIGN 5: C07 for invalid-argument ops, C11 for reads of damaged files, C14 for reading back a basis
+    file the library wrote in a plan that damages nothing, C17 otherwise)"""
     if ":invalid" in opdesc or opdesc.startswith("qinvalid"):
         return "C07"
     if opdesc.startswith(("read", "rbasis")) and plan_profile in ("reader",):
         return "C11"
+    if opdesc.startswith("rbasis") and plan_profile == "io" and not re.search(r"^op \d+ (damage|fbasis) ", plan_text, re.M) and not re.search(r"^f io\.(?!chunk)", plan_text, re.M):
+        return "C14"
     if opdesc.startswith("lu"):
         return "C13"   # component-level LU history: neither an exact solve nor a reported singularity
     return "C17"
@@ -279,7 +282,7 @@ def violations_of(res, crash, flavour, plan_text, profile):
         opdesc, opline = op_at_crash(lines)
         san = crash["san"] or (c2["san"] if c2 else "")
         cls = crash_class(san, crash["exit"], opdesc)
-        return [(crash_property(opdesc, profile), cls, (opline + "\n" + san)[:3000])]
+        return [(crash_property(opdesc, profile, plan_text), cls, (opline + "\n" + san)[:3000])]
     for v in res.get("violations", []):
         out.append((v["prop"], v["cls"], v["detail"]))
     if res.get("leak"):
